@@ -17,8 +17,10 @@ CONSTANTS Variant      \* "asis" (repaired) | "blank_adds_empty" (the base pre-p
 VARIABLES fmt, file, pos, rlist
 fvars == <<fmt, file, pos, rlist>>
 
+(* marker tokens: the database markers, plus "hv" and "XR" which the driver declares through the `pseudo_elements` argument of the
+   networks that use them (a user-declared marker is a marker like any other) *)
 Markers == {"CR", "CRP", "PHOTON", "CRPHOT", "Photon", "XRAY", "",
-            "FREEZE", "DESOH2", "DESCR", "DEUVCR", "THERM", "DIFF", "CHEMDES", "NAN"}
+            "FREEZE", "DESOH2", "DESCR", "DEUVCR", "THERM", "DIFF", "CHEMDES", "NAN", "hv", "XR"}
 DropMarkers(s) == SelectSeq(s, LAMBDA x : x \notin Markers)
 
 (* format code -> naunet reaction type code *)
